@@ -27,6 +27,7 @@ typedef struct cell {
 	int warm;      /* warm-up prefix */
 	int wl;        /* workload id */
 	int two;
+	int rl;        /* C11: index+1 into RELAYS[], 0 = relay class from `up` */
 } cell;
 
 static const char *QT[8] = { "NULL", "PRIVATE", "TXT", "SRV", "MX", "CNAME", "A", "" };
@@ -35,7 +36,8 @@ static const int FS[4] = { 0, 50, 200, 1200 };
 static const int ML[3] = { 255, 100, 180 };
 static const int LAT[6][2] = { { 3000, 3000 }, { 0, 0 }, { 30000, 30000 }, { 300000, 300000 }, { 3000, 300000 }, { 300000, 3000 } };
 
-static cell CELLS[40000]; static int ncells;
+static cell CELLS[120000]; static int ncells;
+static ns_relay RELAYS[120000]; static int nrelays;
 static int BUDGET;           /* deviation bound for this run */
 static int HORIZON_S = 14;
 
@@ -54,12 +56,19 @@ static void cell_to_cfg(const cell *c, ns_cfg *n)
 	case 3: r->present = 1; r->idrewrite = 1; r->q8 = R8_REJECT; r->qpunct = RP_PLUS; r->edns = 1; break;
 	case 4: r->present = 1; r->idrewrite = 1; r->edns = 1; break;
 	}
+	if (c->rl) *r = RELAYS[c->rl - 1];
 }
 
 static void cell_desc(const cell *c, char *b, size_t n)
 {
-	snprintf(b, n, "T=%s O=%s up=%d m=%d M=%d lazy=%d raw=%d lat=%d/%d warm=%d wl=%d two=%d", c->qt == 7 ? "auto" : QT[c->qt], c->de ? DE[c->de] : "auto",
+	int k = snprintf(b, n, "T=%s O=%s up=%d m=%d M=%d lazy=%d raw=%d lat=%d/%d warm=%d wl=%d two=%d", c->qt == 7 ? "auto" : QT[c->qt], c->de ? DE[c->de] : "auto",
 		 c->up, c->fs, c->ml, c->lazy, c->raw, LAT[c->lat][0], LAT[c->lat][1], c->warm, c->wl, c->two);
+	if (c->rl && k < (int)n) {
+		static const char *CS[] = { "keep", "lower", "upper", "random" }, *E8[] = { "clean", "strip", "reject" }, *PU[] = { "keep", "+->-", "_->-" };
+		const ns_relay *r = &RELAYS[c->rl - 1];
+		char ts[40] = ""; for (int i = 0; i < 7; i++) if (!r->types || (r->types & (1u << i))) { strcat(ts, i == 0 ? "N" : i == 1 ? "P" : i == 2 ? "T" : i == 3 ? "S" : i == 4 ? "M" : i == 5 ? "C" : "A"); }
+		snprintf(b + k, n - k, " relay[queries: case %s, 8bit %s, punct %s; answers: case %s, 8bit %s, punct %s; types %s; limit %d; edns0 %s]", CS[r->qcase], E8[r->q8], PU[r->qpunct], CS[r->acase], E8[r->a8], PU[r->apunct], ts, r->limit, r->edns ? "honoured" : "ignored");
+	}
 }
 static void describe_job(int job, char *b, size_t n) { if (job >= 0 && job < ncells) cell_desc(&CELLS[job], b, n); }
 
@@ -71,7 +80,7 @@ static int exclude_oversized_fragsize;
 static void add_cell(cell c)
 {
 	if (exclude_oversized_fragsize && (c.qt == 5 || c.qt == 6) && c.fs > 50) return;
-	if (ncells < 40000) CELLS[ncells++] = c;
+	if (ncells < 120000) CELLS[ncells++] = c;
 }
 
 /* full product of the configuration grid */
@@ -118,6 +127,40 @@ static void cells_pairwise(int wl, int lat)
 	}
 }
 
+/* ---------------------------------------------------------------- C11: relay family */
+static int add_relay(int qx, int ax, unsigned types, int limit, int edns)
+{
+	ns_relay r; memset(&r, 0, sizeof r);
+	r.present = 1; r.idrewrite = 1;
+	r.qcase = qx % 4; r.q8 = (qx / 4) % 3; r.qpunct = qx / 12;
+	r.acase = ax % 4; r.a8 = (ax / 4) % 3; r.apunct = ax / 12;
+	r.types = types; r.limit = limit; r.edns = edns;
+	RELAYS[nrelays++] = r;
+	return nrelays;
+}
+static void c11_cell(int qt, int de, int rl)
+{
+	cell c; memset(&c, 0, sizeof c);
+	c.qt = qt; c.de = de; c.ml = 255; c.lazy = 1; c.wl = 5; c.rl = rl;
+	add_cell(c);
+}
+static void cells_c11(int thorough_)
+{
+	static const struct { int limit, edns; } LIM_Q[] = { { 0, 1 }, { 512, 1 } }, LIM_T[] = { { 0, 1 }, { 4096, 1 }, { 4096, 0 }, { 1232, 1 }, { 1232, 0 }, { 512, 1 } };
+	unsigned sets[14]; int nsets = 0;
+	for (int k = 1; k <= 7; k++) sets[nsets++] = (1u << k) - 1;                /* prefixes NULL..k */
+	for (int k = 1; k <= 6; k++) sets[nsets++] = 0x7f & ~((1u << k) - 1);      /* suffixes k..A */
+	if (!thorough_) {
+		for (int x = 0; x < 36; x++) for (int s_ = 0; s_ < nsets; s_++) for (int l = 0; l < 2; l++) c11_cell(7, 0, add_relay(x, x, sets[s_], LIM_Q[l].limit, LIM_Q[l].edns));
+		/* forced type and downstream codec through the diagonal relays */
+		for (int qt = 0; qt < 7; qt++) for (int de = 1; de <= 5; de++) { if (de == 5 && qt > 2) continue; for (int x = 0; x < 36; x += 5) c11_cell(qt, de, add_relay(x, x, 0, 512, 1)); }
+		return;
+	}
+	for (int qx = 0; qx < 36; qx++) for (int ax = 0; ax < 36; ax++) for (int t = 0; t < 7; t++) for (int l = 0; l < 6; l++) c11_cell(7, 0, add_relay(qx, ax, 1u << t, LIM_T[l].limit, LIM_T[l].edns));
+	for (int x = 0; x < 36; x++) for (unsigned set = 1; set < 128; set++) for (int l = 0; l < 6; l += 5) c11_cell(7, 0, add_relay(x, x, set, LIM_T[l].limit, LIM_T[l].edns));
+	for (int qt = 0; qt < 7; qt++) for (int de = 1; de <= 5; de++) { if (de == 5 && qt > 2) continue; for (int x = 0; x < 36; x++) for (int l = 0; l < 6; l += 5) c11_cell(qt, de, add_relay(x, x, 0, LIM_T[l].limit, LIM_T[l].edns)); }
+}
+
 /* ---------------------------------------------------------------- workload */
 typedef struct wpk { int side; int size; int at_ms; int compressible; int dst; } wpk;    /* side 1 = client A tun, 0 = server tun, 2 = client B; dst: tunnel address (host order) */
 #define A_SRV 0x0A000001u
@@ -133,7 +176,9 @@ static const wpk WL2[] = { { 1, 700, 100, 0, A_CLB }, { 2, 300, 200, 0, A_CLA },
 /* C02 clean path: four per direction, back-to-back and spaced, all sizes that fit 16 fragments in most cells */
 static const wpk WL3[] = { { 1, 40, 100, 0, A_SRV }, { 1, 300, 101, 0, A_SRV }, { 0, 40, 102, 0, A_CLA }, { 0, 300, 103, 0, A_CLA }, { 1, 64, 2000, 1, A_SRV }, { 0, 64, 2100, 1, A_CLA },
 	{ 1, 500, 4000, 0, A_SRV }, { 0, 500, 4001, 0, A_CLA } };
-static const struct { const wpk *p; int n; } WLS[4] = { { WL0, 10 }, { WL1, 12 }, { WL2, 6 }, { WL3, 8 } };
+/* C11: large packets both ways at the same time (full upstream chunk answered by a full downstream fragment), then small, then large again */
+static const wpk WL5[] = { { 1, 1100, 100, 0, A_SRV }, { 0, 1100, 100, 0, A_CLA }, { 1, 60, 4000, 0, A_SRV }, { 0, 60, 4100, 0, A_CLA }, { 1, 1100, 7000, 0, A_SRV }, { 0, 1100, 7001, 0, A_CLA } };
+static const struct { const wpk *p; int n; } WLS[6] = { { WL0, 10 }, { WL1, 12 }, { WL2, 6 }, { WL3, 8 }, { WL0, 0 }, { WL5, 6 } };
 
 static int up_chunk_cap, down_frag_cap;
 static int WL_MUST[NS_MAXPK];   /* bytes per upstream query / downstream fragment in this cell */
@@ -305,8 +350,18 @@ static void end_of_run_c02_clean(const cell *c, const char *desc)
 				char a[120] = "", b[120] = "";
 				for (int i = 0; i < n2 && i < 12; i++) sprintf(a + strlen(a), "%d ", ns_rd[e2[i]].tag);
 				for (int i = 0; i < m2 && i < 12; i++) sprintf(b + strlen(b), "%d ", ns_rd[g2[i]].tag);
-				viol(m2 < n2 ? "accepted-packet-not-delivered-on-clean-path" : "packet-repeated-or-reordered-on-clean-path",
-				     "clean path, %s: packets accepted from proc %d for proc %d: [%s] delivered: [%s]", desc, src, dst, a, b);
+				char what[160];
+				snprintf(what, sizeof what, "%s", m2 < n2 ? "accepted-packet-not-delivered-on-clean-path" : "packet-repeated-or-reordered-on-clean-path");
+				if (!strcmp(PROP, "C11")) {
+					/* name the negotiated settings and the answer-side transformation: one signature per root cause */
+					static const char *PU[] = { "keep", "plus", "underscore" }, *E8[] = { "clean", "strip", "reject" }, *CS[] = { "keep", "lower", "upper", "random" };
+					const ns_relay *r = &NC.relay;
+					size_t k = strlen(what);
+					/* root cause classes: which codec is in use in the direction the relay transforms, and how */
+					snprintf(what + k, sizeof what - k, ":%s:down-%c:answers-%s-%s-%s", (c->qt == 7 && c->de == 0) ? "autodetected" : "forced", ca_w_downenc() > ' ' ? ca_w_downenc() : 'T',
+						 CS[r->acase], E8[r->a8], PU[r->apunct]);
+				}
+				viol(what, "clean path, %s: packets accepted from proc %d for proc %d: [%s] delivered: [%s]", desc, src, dst, a, b);
 			}
 		}
 	}
@@ -453,6 +508,8 @@ static void run_cell(int job)
 	XC.budget = 0;
 	int rc = ns_boot(&cfg, 150 * 1000000LL);
 	xp_count(K_CELLS, 1);
+	if (rc != 0 && !strcmp(PROP, "C11") && c->qt == 7 && c->de == 0)
+		viol("negotiation-failed-on-a-usable-path", "%s: the path passes Base32 names both ways and answers up to 512 bytes for at least one record type, but the autodetecting handshake failed (result %d)", desc, ns_hs_result[1]);
 	if (rc != 0) {
 		/* handshake did not complete on a clean path: nothing to explore in this cell (counted) */
 		xp_count(K_HSFAIL, 1);
@@ -503,7 +560,13 @@ static void run_cell(int job)
 		for (int k = 0; k < i; k++) if (ns_wr[k].proc == ns_wr[i].proc && ns_wr[k].matched == ns_wr[i].matched && ns_wr[i].matched >= 0) { rep++; break; }
 	}
 	xp_count(K_DELIV_UP, up); xp_count(K_DELIV_DOWN, down); xp_count(K_REPEATS, rep);
-	if (!strcmp(PROP, "C02") && XC.npath == 0) end_of_run_c02_clean(c, desc);
+	if ((!strcmp(PROP, "C02") || !strcmp(PROP, "C11")) && XC.npath == 0) end_of_run_c02_clean(c, desc);
+	if (!strcmp(PROP, "C11")) {
+		/* which settings were negotiated: outcome classes */
+		struct tun_user *u0 = s_w_users();
+		xp_outcome(0xC1100000ULL ^ ((uint64_t)ca_w_qtype() << 32) ^ ((uint64_t)(unsigned char)ca_w_downenc() << 24) ^ ((uint64_t)(ca_w_dataenc_name()[4] & 0xff) << 16) ^ (uint64_t)(u0[0].fragsize / 64));
+		if ((job % 211) == 0) xp_sample("%s -> settled on qtype %d, upstream %s, downstream '%c', fragment size %d; delivered %d up / %d down", desc, ca_w_qtype(), ca_w_dataenc_name(), ca_w_downenc(), u0[0].fragsize, up, down);
+	}
 	{
 		/* outcome class: which tags arrived where, how many repeats, who is alive */
 		uint64_t o = 1469598103934665603ULL;
@@ -533,7 +596,11 @@ int main(int argc, char **argv)
 	struct { int first, count, budget; } PH[8]; int nph = 0;
 	#define PHASE(b) do { PH[nph].count = ncells - PH[nph].first; PH[nph].budget = (b); nph++; PH[nph].first = ncells; } while (0)
 	PH[0].first = 0;
-	if (!strcmp(PROP, "C02")) {
+	if (!strcmp(PROP, "C11")) {
+		cells_c11(thorough);
+		HORIZON_S = 40;
+		PHASE(0);
+	} else if (!strcmp(PROP, "C02")) {
 		for (int lat = 0; lat < (thorough ? 6 : 3); lat++) cells_full(3, lat);
 		PHASE(0);
 		/* recovery after burst outages: pairwise subset (thorough: also at 30 ms latency) */
